@@ -247,6 +247,34 @@ pub fn extract_targets_from_node(targets: Vec<Target>, node: Node) -> Vec<Node> 
     return walk_node_for_targets(&target_set, node);
 }
 
+//Extract target ast node types from the attributes of a function definition
+fn walk_function_attributes_for_targets(
+    targets: &HashSet<Target>,
+    attributes: Vec<pt::FunctionAttribute>,
+) -> Vec<Node> {
+    let mut matches = vec![];
+
+    for attribute in attributes {
+        match attribute {
+            pt::FunctionAttribute::BaseOrModifier(_, base) => {
+                if base.args.is_some() {
+                    for arg in base.args.unwrap() {
+                        matches.append(&mut walk_node_for_targets(targets, arg.into()));
+                    }
+                }
+            }
+
+            pt::FunctionAttribute::NameValue(_, _, expression) => {
+                matches.append(&mut walk_node_for_targets(targets, expression.into()));
+            }
+
+            _ => {}
+        }
+    }
+
+    matches
+}
+
 //Extract target ast node types from a parent node
 pub fn walk_node_for_targets(targets: &HashSet<Target>, node: Node) -> Vec<Node> {
     let mut matches = vec![];
@@ -308,6 +336,12 @@ pub fn walk_node_for_targets(targets: &HashSet<Target>, node: Node) -> Vec<Node>
                         ));
                     }
                 }
+                //Walk the arguments of modifier and base constructor invocations for targets
+                matches.append(&mut walk_function_attributes_for_targets(
+                    targets,
+                    box_function_definition.attributes,
+                ));
+
                 //Walk return params for targets
                 for (_, option_parameter) in box_function_definition.returns {
                     if option_parameter.is_some() {
@@ -402,6 +436,12 @@ pub fn walk_node_for_targets(targets: &HashSet<Target>, node: Node) -> Vec<Node>
                         ));
                     }
                 }
+                //Walk the arguments of modifier and base constructor invocations for targets
+                matches.append(&mut walk_function_attributes_for_targets(
+                    targets,
+                    box_function_definition.attributes,
+                ));
+
                 //Walk return params for targets
                 for (_, option_parameter) in box_function_definition.returns {
                     if option_parameter.is_some() {
